@@ -65,20 +65,27 @@ Proof.
   induction o as [|x r IH]; simpl; auto. destruct x; simpl; rewrite ?IH; auto.
 Qed.
 
-Lemma call_handler_strip h e s ev : call_handler (strip h) e s ev = clean2 (call_handler h e s ev).
+(* h' does what h does (same client.send / client.disconnect calls in every handler call) and never
+   raises *)
+Section Strip.
+Variables h h' : horacle.
+Hypothesis Hacts : forall n ev, r_acts (h' n ev) = r_acts (h n ev).
+Hypothesis Hquiet : forall n ev, r_raises (h' n ev) = false.
+
+Lemma call_handler_strip e s ev : call_handler h' e s ev = clean2 (call_handler h e s ev).
 Proof.
-  unfold call_handler, strip, clean2; cbn [r_acts r_raises fst snd]. f_equal.
+  unfold call_handler, clean2. cbv zeta. cbn [fst snd]. rewrite Hacts, Hquiet. f_equal.
   destruct (r_raises _); reflexivity.
 Qed.
 
-Lemma on_connect_strip h e s cid : on_connect (strip h) e s cid = clean2 (on_connect h e s cid).
+Lemma on_connect_strip e s cid : on_connect h' e s cid = clean2 (on_connect h e s cid).
 Proof.
   unfold on_connect. destruct (sfind cid s) as [cl|]; [|reflexivity].
   destruct (pget _ _); [|reflexivity]. apply call_handler_strip.
 Qed.
 
-Lemma srv_msg_strip h e s cid now m x :
-  srv_msg (strip h) e s cid now m x = clean3 (srv_msg h e s cid now m x).
+Lemma srv_msg_strip e s cid now m x :
+  srv_msg h' e s cid now m x = clean3 (srv_msg h e s cid now m x).
 Proof.
   unfold srv_msg. destruct (sfind cid s) as [cl|]; [|reflexivity].
   match goal with |- context [match (if ?b then ?u else ?v) with _ => _ end] =>
@@ -92,8 +99,8 @@ Proof.
     match goal with |- context [if ?b then [SHello _ _ _ _] else []] => destruct b end; reflexivity.
 Qed.
 
-Lemma srv_msgs_strip h e cid now ms : forall s xs,
-  srv_msgs (strip h) e s cid now ms xs = clean3 (srv_msgs h e s cid now ms xs).
+Lemma srv_msgs_strip e cid now ms : forall s xs,
+  srv_msgs h' e s cid now ms xs = clean3 (srv_msgs h e s cid now ms xs).
 Proof.
   induction ms as [|m r IH]; intros s xs; cbn [srv_msgs]; [reflexivity|].
   rewrite srv_msg_strip. destruct (srv_msg h e s cid now m (hd no_hsx xs)) as [[s1 o1] r1]. cbn [clean3].
@@ -101,8 +108,8 @@ Proof.
   destruct (srv_msgs h e s1 cid now r _) as [[s2 o2] r2]. cbn [clean3]. rewrite noexc_app. reflexivity.
 Qed.
 
-Lemma srv_recv_strip h e s cid now d xs :
-  srv_recv (strip h) e s cid now d xs = clean3 (srv_recv h e s cid now d xs).
+Lemma srv_recv_strip e s cid now d xs :
+  srv_recv h' e s cid now d xs = clean3 (srv_recv h e s cid now d xs).
 Proof.
   unfold srv_recv. destruct (sfind cid s) as [cl|]; [|reflexivity].
   destruct (keyless_refuses _ _); [reflexivity|].
@@ -113,8 +120,8 @@ Proof.
   rewrite noexc_app, noexc_cb_outs. reflexivity.
 Qed.
 
-Lemma deliver_msgs_strip h e cid q : forall s,
-  deliver_msgs (strip h) e s cid q = clean2 (deliver_msgs h e s cid q).
+Lemma deliver_msgs_strip e cid q : forall s,
+  deliver_msgs h' e s cid q = clean2 (deliver_msgs h e s cid q).
 Proof.
   induction q as [|[ms p] r IH]; intros s; cbn [deliver_msgs]; [reflexivity|].
   rewrite call_handler_strip. destruct (call_handler h e s _) as [s1 o1]. unfold clean2 at 1; cbn [fst snd].
@@ -122,7 +129,7 @@ Proof.
   rewrite noexc_app. reflexivity.
 Qed.
 
-Lemma deliver_strip h e s cid : deliver (strip h) e s cid = clean2 (deliver h e s cid).
+Lemma deliver_strip e s cid : deliver h' e s cid = clean2 (deliver h e s cid).
 Proof.
   unfold deliver. destruct (sfind cid s) as [cl|]; [|reflexivity].
   rewrite deliver_msgs_strip. destruct (deliver_msgs h e s cid _) as [s1 o1]. reflexivity.
@@ -131,8 +138,8 @@ Qed.
 Lemma noexc_dgramerr (b : bool) a : noexc (if b then [SDgramErr a] else []) = if b then [SDgramErr a] else [].
 Proof. destruct b; reflexivity. Qed.
 
-Lemma disp_item_strip h e s now a d xs :
-  disp_item (strip h) e s now a d xs = clean2 (disp_item h e s now a d xs).
+Lemma disp_item_strip e s now a d xs :
+  disp_item h' e s now a d xs = clean2 (disp_item h e s now a d xs).
 Proof.
   unfold disp_item. destruct (pget a (s_conns s)) as [cl|].
   - rewrite srv_recv_strip. destruct (srv_recv h e s _ now d xs) as [[s1 o1] r1]. cbn [clean3].
@@ -151,8 +158,8 @@ Proof.
       rewrite noexc_app, noexc_dgramerr. reflexivity.
 Qed.
 
-Lemma disp_all_strip h e now q : forall s,
-  disp_all (strip h) e s now q = clean2 (disp_all h e s now q).
+Lemma disp_all_strip e now q : forall s,
+  disp_all h' e s now q = clean2 (disp_all h e s now q).
 Proof.
   induction q as [|it r IH]; intros s; cbn [disp_all]; [reflexivity|].
   destruct (s_dead s); [reflexivity|].
@@ -163,7 +170,7 @@ Proof.
   - rewrite IH. destruct (disp_all h e s now r) as [s2 o2]. reflexivity.
 Qed.
 
-Lemma srv_du_strip h e s i : srv_du (strip h) e s i = clean2 (srv_du h e s i).
+Lemma srv_du_strip e s i : srv_du h' e s i = clean2 (srv_du h e s i).
 Proof.
   unfold srv_du. rewrite disp_all_strip. destruct (disp_all h e _ _ _) as [s1 o1]. unfold clean2 at 1; cbn [fst snd].
   destruct (s_dead s1); [reflexivity|].
@@ -179,8 +186,8 @@ Proof.
   unfold tick_client. destruct (server_tick _ _ _) as [c' o']. intros [= <- <- <- <-]. apply noexc_cb_outs.
 Qed.
 
-Lemma sweep_conn_strip h e s now cid :
-  sweep_conn (strip h) e s now cid = clean3 (sweep_conn h e s now cid).
+Lemma sweep_conn_strip e s now cid :
+  sweep_conn h' e s now cid = clean3 (sweep_conn h e s now cid).
 Proof.
   unfold sweep_conn. destruct (pfind cid (s_conns s)) as [cl0|]; [|reflexivity].
   match goal with |- context [pfind cid (s_conns ?x)] =>
@@ -212,8 +219,8 @@ Proof.
   destruct (sweep_list f s1 r) as [[s2 o2] p2]. cbn [clean3]. rewrite noexc_app. reflexivity.
 Qed.
 
-Lemma shutdown_list_strip h e ids : forall s,
-  shutdown_list (strip h) e s ids = clean2 (shutdown_list h e s ids).
+Lemma shutdown_list_strip e ids : forall s,
+  shutdown_list h' e s ids = clean2 (shutdown_list h e s ids).
 Proof.
   induction ids as [|cid r IH]; intros s; cbn [shutdown_list]; [reflexivity|].
   destruct (pfind cid (s_conns s)) as [cl|]; [|apply IH].
@@ -222,7 +229,7 @@ Proof.
   rewrite noexc_app. reflexivity.
 Qed.
 
-Lemma srv_shutdown_strip h e s : srv_shutdown (strip h) e s = clean2 (srv_shutdown h e s).
+Lemma srv_shutdown_strip e s : srv_shutdown h' e s = clean2 (srv_shutdown h e s).
 Proof.
   unfold srv_shutdown. rewrite shutdown_list_strip. destruct (shutdown_list h e s _) as [s1 o1].
   unfold clean2 at 1; cbn [fst snd].
@@ -230,11 +237,11 @@ Proof.
   rewrite noexc_app. reflexivity.
 Qed.
 
-Lemma srv_sx_strip h e s i : srv_sx (strip h) e s i = clean2 (srv_sx h e s i).
+Lemma srv_sx_strip e s i : srv_sx h' e s i = clean2 (srv_sx h e s i).
 Proof.
   unfold srv_sx.
   rewrite (sweep_list_strip (fun s cid => sweep_conn h e s (i_ts i) cid)
-                            (fun s cid => sweep_conn (strip h) e s (i_ts i) cid))
+                            (fun s cid => sweep_conn h' e s (i_ts i) cid))
     by (intros; apply sweep_conn_strip).
   destruct (sweep_list _ s _) as [[s3 o3] p3]. cbn [clean3].
   destruct (sweep_list _ s3 _) as [[s4 o4] p4] eqn:S4.
@@ -249,7 +256,7 @@ Proof.
   - unfold clean2; cbn [fst snd]. rewrite !noexc_app, noexc_send_all, N4. reflexivity.
 Qed.
 
-Lemma srv_step_strip h e s i : srv_step (strip h) e s i = clean2 (srv_step h e s i).
+Lemma srv_step_strip e s i : srv_step h' e s i = clean2 (srv_step h e s i).
 Proof.
   unfold srv_step. destruct (negb (s_active s) || s_dead s); [reflexivity|].
   rewrite srv_du_strip. destruct (srv_du h e s i) as [s2 o2]. unfold clean2 at 1; cbn [fst snd].
@@ -258,7 +265,7 @@ Proof.
   rewrite noexc_app. reflexivity.
 Qed.
 
-Lemma srv_run_strip h e is : forall s, srv_run (strip h) e s is = clean2 (srv_run h e s is).
+Lemma srv_run_strip e is : forall s, srv_run h' e s is = clean2 (srv_run h e s is).
 Proof.
   induction is as [|i r IH]; intros s; cbn [srv_run]; [reflexivity|].
   rewrite srv_step_strip. destruct (srv_step h e s i) as [s1 o1]. unfold clean2 at 1; cbn [fst snd].
@@ -266,7 +273,7 @@ Proof.
   rewrite noexc_app. reflexivity.
 Qed.
 
-Lemma srv_life_strip h e g bl is : srv_life (strip h) e g bl is = clean2 (srv_life h e g bl is).
+Lemma srv_life_strip e g bl is : srv_life h' e g bl is = clean2 (srv_life h e g bl is).
 Proof.
   unfold srv_life, srv_start. rewrite call_handler_strip.
   destruct (call_handler h e (srv0 g bl) HStarting) as [s0 o0]. unfold clean2 at 1; cbn [fst snd].
@@ -274,24 +281,52 @@ Proof.
   rewrite noexc_app. reflexivity.
 Qed.
 
+End Strip.
+
 (* the statements used in Properties/C10.v *)
+Lemma strip_acts h : forall n ev, r_acts (strip h n ev) = r_acts (h n ev).
+Proof. reflexivity. Qed.
+Lemma strip_quiet h : forall n ev, r_raises (strip h n ev) = false.
+Proof. reflexivity. Qed.
+
 Theorem C10_handler_raise_irrelevant_run_proof : forall h e s ins,
   fst (srv_run (strip h) e s ins) = fst (srv_run h e s ins) /\
   snd (srv_run (strip h) e s ins) = noexc (snd (srv_run h e s ins)).
-Proof. intros. rewrite srv_run_strip. split; reflexivity. Qed.
+Proof. intros. rewrite (srv_run_strip h (strip h) (strip_acts h) (strip_quiet h)). split; reflexivity. Qed.
 
 Theorem C10_handler_raise_irrelevant_proof : forall h e g bl ins,
   fst (srv_life (strip h) e g bl ins) = fst (srv_life h e g bl ins) /\
   snd (srv_life (strip h) e g bl ins) = noexc (snd (srv_life h e g bl ins)) /\
   hlog (snd (srv_life (strip h) e g bl ins)) = hlog (snd (srv_life h e g bl ins)).
 Proof.
-  intros. rewrite srv_life_strip. unfold clean2; cbn [fst snd]. repeat split; auto. apply noexc_hlog.
+  intros. rewrite (srv_life_strip h (strip h) (strip_acts h) (strip_quiet h)).
+  unfold clean2; cbn [fst snd]. repeat split; auto. apply noexc_hlog.
 Qed.
 
 (* (strip h) never produces an SExc line: the filtered trace is the trace of a never-raising run *)
 Theorem C10_strip_never_logs_proof : forall h e g bl ins,
   noexc (snd (srv_life (strip h) e g bl ins)) = snd (srv_life (strip h) e g bl ins).
-Proof. intros. rewrite srv_life_strip. unfold clean2; cbn [fst snd]. apply noexc_idem. Qed.
+Proof.
+  intros. rewrite (srv_life_strip h (strip h) (strip_acts h) (strip_quiet h)).
+  unfold clean2; cbn [fst snd]. apply noexc_idem.
+Qed.
+
+(* two handlers that do the same things and differ only in WHICH calls raise: same final state,
+   same trace up to the exception lines, same events *)
+Theorem C10_raise_pattern_irrelevant_proof : forall h1 h2 e g bl ins,
+  (forall n ev, r_acts (h1 n ev) = r_acts (h2 n ev)) ->
+  fst (srv_life h1 e g bl ins) = fst (srv_life h2 e g bl ins) /\
+  noexc (snd (srv_life h1 e g bl ins)) = noexc (snd (srv_life h2 e g bl ins)) /\
+  hlog (snd (srv_life h1 e g bl ins)) = hlog (snd (srv_life h2 e g bl ins)).
+Proof.
+  intros h1 h2 e g bl ins A.
+  pose proof (srv_life_strip h1 (strip h1) (strip_acts h1) (strip_quiet h1) e g bl ins) as E1.
+  assert (A2 : forall n ev, r_acts (strip h1 n ev) = r_acts (h2 n ev)) by (intros; cbn; apply A).
+  pose proof (srv_life_strip h2 (strip h1) A2 (strip_quiet h1) e g bl ins) as E2.
+  rewrite E1 in E2. unfold clean2 in E2. injection E2 as X Y. repeat split; auto.
+  rewrite <- (noexc_hlog (snd (srv_life h1 e g bl ins))), <- (noexc_hlog (snd (srv_life h2 e g bl ins))).
+  congruence.
+Qed.
 
 (* ====================================================================================== *)
 (* (A) the token invariant over whole runs                                                 *)
